@@ -46,12 +46,18 @@ TRUSTED_BASE = [
     "harness encoders harness/props/C12.py (attribute interning, half-unit bond orders)",
 ]
 ASSUMPTIONS = ["node ids are distinct ints; no self-loops; simple undirected graphs",
+               "component-wise mode: ties between equally large components are broken by the node order of the (pruned) graph; when "
+               "prune_wc removes more than half of the atoms networkx iterates the pruned copy in Python-set order -- the encoder hands "
+               "the graph to the model in that order (_nx_prune_order)",
                "node attribute values compared are str or int (interned injectively); bond orders are numeric half-integers or missing",
                "MTG variant: within one case the bond order is missing on at most one of the two graphs (its _edge_match rejects a missing order even against a missing order, which the model reproduces; two-sided gaps are not generated)"]
 TESTED_NOT_PROVED = ["prune_automorphisms=True (representative depends on VF2 enumeration order): oracle only -- every kept mapping valid, "
                      "maximum, host-node sets pairwise distinct and covering the host sets of all maximum mappings",
-                     "mcs_mol / component-wise modes: oracle only (validity of the combined mapping)"]
-LEVEL_TEXT = ("Machine-checked proof (Coq, 20 theorems in coq/props/C12.v, all closed under the global context) over an executable model "
+                     "mcs_mol (molecule-level greedy matching keeps VF2's first isomorphism): oracle only (validity of the combined mapping)",
+                     "derived views of a matcher object (mappings, num_mappings, mapping_direction, iteration, repr, repeated and re-ordered "
+                     "get_mappings reads, reads after the caller edited earlier results): checked by the adapter against the stored result "
+                     "after every step of every history"]
+LEVEL_TEXT = ("Machine-checked proof (Coq, 24 theorems in coq/props/C12.v, all closed under the global context) over an executable model "
               "of MCSMatcher._search_subgraphs / _prune_graph / _prepare_orientation / find_common_subgraph / get_mappings (both copies of "
               "the matcher), for all pairs of graphs with distinct node ids: every returned mapping (both modes, all three directions, after "
               "orientation swap and wildcard pruning) is a function, injective, label-preserving, and preserves presence AND order of every "
@@ -60,13 +66,17 @@ LEVEL_TEXT = ("Machine-checked proof (Coq, 20 theorems in coq/props/C12.v, all c
               "all-sizes mode: exactly the non-empty common induced mappings, C12_all_sizes); non-empty iff some atom pair matches; "
               "G1->G2 and G2->G1 answers are position-wise mutually inverse (C12_directions_inverse); exchanging the arguments gives the "
               "same size and the same answers (C12_orientation_swap: equal lists for different sizes; C12_orientation_general: up to pair "
-              "order for equal sizes); no mapping is returned twice. The level-by-level search is related to the verified enumerator "
+              "order for equal sizes); no mapping is returned twice and the list is sorted by (-size, sorted items) (C12_sorted); the combined mapping "
+              "of component-wise mode (find_rc_mapping component=True: components by reachability closure, stable size sort, pairwise search) is a "
+              "common induced mapping also across components (C12_component_valid). The level-by-level search is related to the verified enumerator "
               "lib/Mono.v (induced) by C12_level_exact; the dependence on networkx VF2 is the explicit premise of C12_vf2_premise (same "
               "result SET per k-subset). Model and code are compared on every run (ordered lists, sizes, subset counts).")
 LEVEL_NOTE = ("Trusted: Coq kernel + vm_compute; the hand-written model and encoders; networkx VF2 returns, for every k-subset, the same set of "
               "induced sub-graph isomorphisms as the verified enumerator (C12_vf2_premise states that nothing else about VF2 matters; "
-              "monitored: ordered result lists compared on every case). Not modelled, oracle only: prune_automorphisms, mcs_mol, "
-              "find_rc_mapping's component mode. Not proved (compared only): sort order of the returned list, last_size in all-sizes mode.")
+              "monitored: ordered result lists compared on every case); in component-wise mode with pruning the node order of networkx's pruned copy "
+              "(Python-set order when fewer than half of the atoms survive) is an input of the model. Not modelled, oracle only: "
+              "prune_automorphisms and mcs_mol (both keep VF2's first result). Not proved (compared only): last_size in all-sizes mode. "
+              "Histories on reused matcher / graph objects are compared step by step with the (pure) model.")
 TECHNIQUE = ("Coq proof about a structure-following Gallina model (loop invariants of the size-descending search, refinement to the "
              "verified enumerator Mono.monos via an order-free reading of Mono.valid, transport through inversion for the orientation swap) "
              "+ per-run correspondence by vm_compute + independent brute-force oracle")
